@@ -421,6 +421,29 @@ def labEp (r : Rng) : Rng × Spec.SPos :=
     if mot = 0 then lineMotif r b x 1 0          -- black king, white slider: discovered check by the capture
     else if mot = 1 then lineMotif r b x 0 1     -- white king, black slider: pin / illegal capture
     else (r, b)
+  -- with the king on the rank of the two pawns: often an enemy rook or queen at the far end of that rank (the classical illegal capture)
+  let (r, ra) := r.below 2
+  let b := if kr = 0 ∧ ra = 0 then
+             (let kf := (Spec.findKing b 0) % 8
+              let far := if kf < f then 39 else 32
+              if Spec.pcAt b far = 0 then putPiece b far 10 else b)
+           else b
+  -- a second, unrelated pin of an own piece against the same king (pin lists with more than one entry while en passant is possible)
+  let (r, cp) := r.below 2
+  let (r, cd) := r.pick [((0 : Int), (1 : Int)), (1, 1), (-1, 1), (0, -1), (1, -1), (-1, -1), (1, 0), (-1, 0)]
+  let (r, c1) := r.below 2
+  let (r, c2) := r.below 3
+  let b :=
+    if cp = 0 then
+      (let wkq := Spec.findKing b 0
+       let f1 := Spec.fileI wkq + cd.1 * (c1 + 1); let r1 := Spec.rankI wkq + cd.2 * (c1 + 1)
+       let f2 := Spec.fileI wkq + cd.1 * (c1 + c2 + 2); let r2 := Spec.rankI wkq + cd.2 * (c1 + c2 + 2)
+       if wkq < 64 && Spec.onBoard f1 r1 && Spec.onBoard f2 r2 && Spec.pcAt b (Spec.sqOf f1 r1) = 0 && Spec.pcAt b (Spec.sqOf f2 r2) = 0 then
+         (let diag := cd.1 ≠ 0 && cd.2 ≠ 0
+          let b := putPiece b (Spec.sqOf f1 r1) (if diag then 3 else 4)
+          putPiece b (Spec.sqOf f2 r2) (if diag then 9 else 10))
+       else b)
+    else b
   let (r, n) := r.below 4
   let (r, b) := sprinkle r b n [9, 10, 11, 9, 10, 11, 3, 4, 5, 2, 8, 1, 7]
   (r, { board := b, side := 0, castling := 0, ep := ep, halfmove := 0, fullmove := 20 })
